@@ -1,4 +1,5 @@
 //! simreal: legs A and C of C19, C15, golden reference, libdump - against the real dependency.
+mod c15;
 mod child;
 mod golden;
 mod lega;
@@ -71,6 +72,7 @@ fn main() {
         "legA" => lega::run(&opts),
         "legC" => legc::run(&opts),
         "libdump" => libdump::run(&opts),
+        "c15" => c15::run(&opts),
         other => {
             eprintln!("unknown subcommand {other}");
             2
